@@ -189,8 +189,47 @@ def _post_addrgroups(args, kwargs, result, exc, token):
                                  "want": {k: [bits.cube_text(c) for c in v] for k, v in dev["groups"].items()}}})
 
 
+def _post_parser_acls(self, args, kwargs, result, exc, token):
+    """ConfigParser.acls() (public, also the worker behind acls()): every call on one parser object is judged alone."""
+    dev = EXPECT["dev"]
+    if dev is None:
+        return
+    _bump("parser_acls_returns_judged")
+    if exc is not None:
+        FOUND.append({"what": "ConfigParser.acls() raised on a valid configuration", "detail": repr(exc)})
+        return
+    type_filter = kwargs.get("type", args[0] if args else "")
+    names_filter = kwargs.get("names")
+    want_acls = [a for a in dev["acls"] if (names_filter is None or a["name"] in names_filter)
+                 and (not type_filter or a["type"] == type_filter)]
+    problems = []
+    got_names = [d.get("name") for d in result]
+    if sorted(got_names) != sorted(a["name"] for a in want_acls):
+        problems.append(f"returned ACLs {got_names}, configuration defines {[a['name'] for a in want_acls]} "
+                        f"(names {names_filter}, type {type_filter!r})")
+    else:
+        by_name = {d["name"]: d for d in result}
+        for want in want_acls:
+            got = by_name[want["name"]]
+            name = want["name"]
+            if got.get("type") != want["type"]:
+                problems.append(f"ACL {name}: type {got.get('type')!r} expected {want['type']!r}")
+            body = [" ".join(ln.split()) for ln in str(got.get("line", "")).split("\n")[1:] if ln.strip()]
+            if body != [" ".join(e.split()) for e in want["entries"]]:
+                problems.append(f"ACL {name}: body lines {body[:5]} differ from the configuration's {want['entries'][:5]}")
+            want_in = sorted(f"interface {i}" for i, binds in dev["intfs"].items() if (name, "in") in binds)
+            want_out = sorted(f"interface {i}" for i, binds in dev["intfs"].items() if (name, "out") in binds)
+            if sorted(got.get("input", [])) != want_in or sorted(got.get("output", [])) != want_out:
+                problems.append(f"ACL {name}: bindings in={got.get('input')} out={got.get('output')}, configuration says "
+                                f"in={want_in} out={want_out} (names {names_filter})")
+    for prob in problems:
+        FOUND.append({"what": "ConfigParser.acls() does not return exactly what the configuration defines", "detail": prob})
+
+
 def install():
-    from cisco_acl import functions  # pylint: disable=import-outside-toplevel
+    from cisco_acl import ConfigParser, functions  # pylint: disable=import-outside-toplevel
+
+    taps.tap_method(ConfigParser, "acls", _post_parser_acls)
 
     taps.tap_function(functions, "acls", _post_acls)
     taps.tap_function(functions, "aces", _post_aces)
@@ -396,6 +435,16 @@ def execute(ctx, case: dict) -> None:
             results.append(_result_key(res))
             cisco_acl.aces(text, platform=platform, group_by=case.get("group_by", ""), **({"version": case["version"]} if case.get("version") else {}))
             cisco_acl.addrgroups(text, platform=platform)
+            if n == 0 and case.get("parser_calls"):
+                # one parser object asked several times (filters that match nothing, some, all; by type)
+                parser = cisco_acl.ConfigParser(config=text, platform=platform)
+                parser.parse_config()
+                for names_f, type_f in case["parser_calls"]:
+                    kw2 = {} if names_f is None else {"names": list(names_f)}
+                    if type_f:
+                        kw2["type"] = type_f
+                    parser.acls(**kw2)
+                    ctx.count("parser_reuse_calls")
         except Exception:  # pylint: disable=broad-except
             results.append(None)  # judged by the taps
         finally:
@@ -423,6 +472,10 @@ def run(ctx) -> None:
         case = {"dev": dev, "styles": [gen_style(rng), gen_style(rng)], "rseed": rng.randrange(1 << 30), "names": names,
                 "version": dev.get("version", ""),
                 "group_by": rng.choice(["", "", "= ", "#"])}
+        if rng.random() < 0.4:
+            pool = [a["name"] for a in dev["acls"]] + ["nope"]
+            case["parser_calls"] = [[rng.choice([None, [], rng.sample(pool, rng.randint(1, min(2, len(pool))))]),
+                                     rng.choice(["", "", "", "extended", "standard"])] for _ in range(rng.randint(2, 4))]
         before = sum(STATS.values())
         execute(ctx, case)
         done += 1
